@@ -18,7 +18,7 @@ U3_FNS_PP = ["packet", "packet_mut", "tid", "set_tid", "flags", "set_flags", "dn
 U3_FNS_DS = ["is_response", "set_response", "qdcount", "set_qdcount", "ancount", "set_ancount",
              "nscount", "set_nscount", "arcount", "set_arcount"]
 
-HEAD2 = [("raw", "use std::mem;\n")] + COMMON_HEAD + [
+HEAD2 = [("raw", "use std::mem;\nuse std::marker;\nuse std::cmp;\n")] + COMMON_HEAD + [
     ("file", "prelude/std_specs.rs"),
     ("file", "spec/wire.rs"),
 ]
@@ -42,6 +42,32 @@ UNITS = {
                 "edns_be16_load", "edns_be32_load", "edns_rr_code", "edns_rr_rdlen", "edns_skip_rr", "opt_rr_max_payload",
                 "opt_rr_ext_rcode", "opt_rr_edns_version", "opt_rr_edns_ext_flags", "opt_rr_rdlen", "parse_opt", "check_uncompressed_name"]),
             ("file", "spec/linear.rs"),
+        ],
+    },
+    "U2": {
+        "title": "readers (C03, question getters of C04)",
+        "flags": [], "rlimit": 60,
+        "contracts": ["contracts/U3.contract:(dns_sector.rs::DNSSector::(is_response|qdcount|ancount|nscount|arcount)|parsed_packet.rs::ParsedPacket::(packet|packet_mut))$", "contracts/U2.contract"],
+        "parts": HEAD2 + [
+            ("struct", "parsed_packet.rs", "ParsedPacket"),
+            ("struct", "dns_sector.rs", "DNSSector"),
+            ("struct", "compress.rs", "Compress"),
+            ("struct", "rr_iterator.rs", "RRRaw"),
+            ("struct", "rr_iterator.rs", "RRIterator"),
+            ("struct", "response_iterator.rs", "ResponseIterator", ["pubfields"]),
+            ("file", "spec/pp_basic.rs"),
+            ("file", "spec/ds.rs"),
+            ("file", "spec/reader.rs"),
+            ("file", "spec/iter.rs"),
+            ("impl", "dns_sector.rs", "DNSSector", ["is_response", "qdcount", "ancount", "nscount", "arcount"]),
+            ("impl", "parsed_packet.rs", "ParsedPacket", ["packet", "packet_mut"]),
+            ("impl", "rr_iterator.rs", "RRIterator", ["new", "recompute", "skip_name", "rr_rdlen", "skip_rdata", "skip_rr", "edns_rr_rdlen", "edns_skip_rr"]),
+            ("trait", "rr_iterator.rs", "DNSIterable", ["offset", "offset_next", "is_tombstone", "raw", "parsed_packet", "packet", "name_slice", "rdata_slice"]),
+            ("trait", "rr_iterator.rs", "TypedIterable", ["rr_type", "rr_class"]),
+            ("traitimpl", "response_iterator.rs", "TypedIterable for ResponseIterator", "*"),
+            ("traitimpl", "response_iterator.rs", "DNSIterable for ResponseIterator", ["offset", "offset_next", "raw", "parsed_packet"]),
+            ("impl", "response_iterator.rs", "ResponseIterator", "*"),
+            ("inherent_from_traitimpl", "response_iterator.rs", "DNSIterable for ResponseIterator", ["next"]),
         ],
     },
     "U3": {
